@@ -78,6 +78,7 @@ import fam_iter
 
 
 def c08(run, ctx):
+    fam_vm.pos_uses(run, ctx)
     fam_vm.end_arm(run, ctx)
     fam_iter.iterator_impls(run, ctx)
     fam_iter.own_matches(run, ctx)
@@ -93,6 +94,7 @@ PROPS["C08"] = {"fn": c08, "level": "other",
 
 
 def c09(run, ctx):
+    fam_vm.pos_uses(run, ctx)
     fam_iter.entry_no_bypass(run, ctx)
     fam_iter.own_matches(run, ctx)
     fam_iter.dispatch_rule(run, ctx)
@@ -101,6 +103,7 @@ def c09(run, ctx):
 
 
 def c10(run, ctx):
+    fam_iter.iter_state_machine(run, ctx, "<Matches as Iterator>::next", "find_iter")
     fam_vm.end_arm(run, ctx)
     fam_iter.iterator_impls(run, ctx)
     fam_iter.split_rule(run, ctx)
@@ -109,6 +112,7 @@ def c10(run, ctx):
 
 
 def c11(run, ctx):
+    fam_iter.entry_no_bypass(run, ctx)
     fam_vm.end_arm(run, ctx)
     fam_iter.replace_rule(run, ctx)
     fam_iter.replacer_rule(run, ctx)
@@ -225,6 +229,7 @@ from facts import strip_generics as _sg
 
 
 def c01(run, ctx):
+    fam_vm.pos_uses(run, ctx)
     fam_tmpl.literal_fast_path(run, ctx)
     fam_enc.printable_rule(run, ctx)
     fam_enc.assertion_rule(run, ctx)
